@@ -180,6 +180,15 @@ def run_status_stream(ctx, n):
                     sub = [x for x in data['drift'] if x['kind'] in only]
                     if doc['data']['drift'] != sub or doc['data']['summary'] != cnt(sub) or doc['data'].get('summary_total') != data['summary']:
                         ctx.violation('status --only %s is not exactly the matching subset (or summary_total differs)' % only, rec)
+                    # the per-root summaries of the filtered report count the items it lists (not the unfiltered ones)
+                    fd = doc['data']
+                    for sr in fd.get('summary_by_root', []):
+                        subr = [x for x in fd['drift'] if x['target'] == sr['target'] and x.get('root') == sr['root']]
+                        if sr['summary'] != cnt(subr):
+                            ctx.violation('status --only %s: summary_by_root is not the count of the listed items of that root' % only, rec)
+                    fgroups = sorted((sr['target'], sr['root']) for sr in fd.get('summary_by_root', []))
+                    if fgroups != sorted({(x['target'], x.get('root')) for x in fd['drift']}):
+                        ctx.violation('status --only %s: summary_by_root does not have exactly one entry per (target, root) with listed items' % only, rec)
             warn = ' '.join(doc0.get('warnings', []))
             nd = ('no target manifests found' in warn) or ('no usable target manifest for' in warn)
             if fb != nd:
